@@ -875,3 +875,46 @@ func ErrexitIgnoredContextLostInSubshell(f *syntax.File) bool {
 	scanList(f.Stmts, false)
 	return found
 }
+
+// ForContinuesAfterReturn reports whether a for loop (word list or C style)
+// has a return or exit in its body, in the same function body and shell
+// context: bash leaves the loop variable as it is, the interpreter assigns
+// the remaining words (or runs the post expression once more) before it
+// stops.
+func ForContinuesAfterReturn(f *syntax.File) bool {
+	found := false
+	var visit func(root syntax.Node, inFor bool)
+	visit = func(root syntax.Node, inFor bool) {
+		syntax.Walk(root, func(n syntax.Node) bool {
+			if n == nil || found {
+				return false
+			}
+			if n == root {
+				return true
+			}
+			switch x := n.(type) {
+			case *syntax.Subshell, *syntax.CmdSubst, *syntax.ProcSubst, *syntax.FuncDecl:
+				visit(x, false)
+				return false
+			case *syntax.BinaryCmd:
+				if x.Op == syntax.Pipe || x.Op == syntax.PipeAll {
+					visit(x.X, false)
+					visit(x.Y, inFor)
+					return false
+				}
+			case *syntax.ForClause:
+				if !inFor {
+					visit(x, true)
+					return false
+				}
+			case *syntax.CallExpr:
+				if name := cmdName(x); inFor && (name == "return" || name == "exit") {
+					found = true
+				}
+			}
+			return true
+		})
+	}
+	visit(f, false)
+	return found
+}
